@@ -1,12 +1,14 @@
 import FeatherModel.Lemmas.RemapTree
 import FeatherModel.Lemmas.RemapShape
 import FeatherModel.Lemmas.RemapJar
+import FeatherModel.Lemmas.RemapInner
 import FeatherModel.Gen.RemapFields
 
 /-!
 # C07 — remapping a jar renames every reference consistently and nothing else
 
-Property theorems only. Model of `dukebox/src/remap.rs`: `FeatherModel/Model/RemapTree.lean` (impl by impl, as it is);
+Property theorems only. Model of `dukebox/src/remap.rs`: `FeatherModel/Model/RemapTree.lean` (impl by impl, as it is
+after the repairs of enum constants, record components, module data and unknown attributes);
 independent traversal `refsClass`, the remapper's answers `applyRef`, the shape `eraseClass`:
 `FeatherModel/Model/RemapSpec.lean`; `Gen/RemapFields.lean` is translated from `remap.rs` and duke's tree definitions
 on every run.
@@ -20,74 +22,43 @@ open RemapTree
 
 /-! ## References -/
 
-/-- **What `remap.rs` does, exactly.** On the reference positions of the class (record components, which it drops,
-excepted) it acts position by position as `codeApply` — the remapper's answer everywhere except that the constant name of
-an enum element value is copied — and it fails exactly when
-one of these answers fails. Full strength, no hypothesis. -/
-theorem remap_refs_code (r : Remapper) (c : ClassFile) :
-    (remapClass r c).map refsClass = omapM (codeApply r c.name) (refsClass (strip c)) :=
+/-- **`remap_refs`, full strength.** The references of the result, collected by the independent traversal `refsClass`
+(declarations, instructions, handles, bootstrap arguments, exception tables, stack-map types, annotations incl. enum
+constants, inner-class / enclosing-method / nest / permitted-subclass records, descriptors of locals, module services and
+main class, record components with their annotations), are — position by position, in order — what the remapper answers
+for the original references (`applyRef`, owner = the class being remapped); and the remap fails exactly when one of these
+answers fails. No hypothesis on the class or on the remapper. -/
+theorem remap_refs (r : Remapper) (c : ClassFile) :
+    (remapClass r c).map refsClass = omapM (applyRef r c.name) (refsClass c) :=
   class_ok r c
-
-theorem strip_of_kept {c : ClassFile} (h : Kept c = true) : strip c = c := by
-  obtain ⟨shape, name, sup, itfs, fields, methods, ics, em, sig, rva, ria, rvta, rita, mod, mp, mmc, nh, nm, ps, rcs, attrs⟩ := c
-  simp only [Kept, Bool.and_eq_true, List.all_eq_true, Option.isNone_iff_eq_none, List.isEmpty_iff] at h
-  obtain ⟨⟨⟨⟨⟨⟨hf, hm⟩, h1⟩, h2⟩, h3⟩, h4⟩, h5⟩ := h
-  have hf' : fields.map stripField = fields := by
-    conv => rhs; rw [← List.map_id fields]
-    apply List.map_congr_left
-    intro f hfm
-    have := hf f hfm
-    simp only [keptField, List.isEmpty_iff] at this
-    cases f; simp_all [stripField]
-  have hm' : methods.map stripMethod = methods := by
-    conv => rhs; rw [← List.map_id methods]
-    apply List.map_congr_left
-    intro m hmm
-    have := hm m hmm
-    simp only [keptMethod, Bool.and_eq_true, List.isEmpty_iff] at this
-    obtain ⟨ha, hc⟩ := this
-    obtain ⟨_, _, _, code, _, _, _, _, _, _, _, _, attributes⟩ := m
-    cases code with
-    | none => simp_all [stripMethod]
-    | some cd =>
-      simp only [keptCode, List.isEmpty_iff] at hc
-      cases cd; simp_all [stripMethod, stripCode]
-  simp_all [strip]
-
-/-- **`remap_refs`, proved domain.** For a class with nothing that `remap.rs` drops (`Kept`: no module data, no record
-components, no unknown attributes) and a remapper whose answers at the positions `remap.rs` copies are the identity
-(`Agree`: it does not rename any enum constant used in an annotation), the references of the result are the remapper's answers for the original references, in order;
-and the remap fails exactly when an answer fails. Weaker than the property text, which has no such hypotheses — see the
-`_witness` theorems. -/
-theorem remap_refs_partial (r : Remapper) (c : ClassFile) (hk : Kept c = true) (ha : Agree r c = true) :
-    (remapClass r c).map refsClass = omapM (applyRef r c.name) (refsClass c) := by
-  rw [remap_refs_code, strip_of_kept hk]
-  simp only [Agree, List.all_eq_true, beq_iff_eq] at ha
-  generalize refsClass c = xs at ha
-  induction xs with
-  | nil => rfl
-  | cons x xs ih =>
-    simp only [omapM, ha x (by simp), ih (fun y hy => ha y (by simp [hy]))]
 
 /-- the remap fails only when the remapper fails on one of the class's references -/
 theorem remap_fails_only_on_reference (r : Remapper) (c : ClassFile) (h : remapClass r c = none) :
-    ∃ x ∈ refsClass (strip c), codeApply r c.name x = none := by
-  have h1 := remap_refs_code r c
+    ∃ x ∈ refsClass c, applyRef r c.name x = none := by
+  have h1 := remap_refs r c
   rw [h] at h1
-  generalize refsClass (strip c) = xs at h1
+  generalize refsClass c = xs at h1
   induction xs with
   | nil => simp [omapM] at h1
   | cons x xs ih =>
     simp only [omapM] at h1
-    cases hx : codeApply r c.name x with
+    cases hx : applyRef r c.name x with
     | none => exact ⟨x, by simp, hx⟩
     | some y =>
       simp only [hx] at h1
-      cases hxs : omapM (codeApply r c.name) xs with
+      cases hxs : omapM (applyRef r c.name) xs with
       | none =>
         obtain ⟨z, hz, hzn⟩ := ih (by simp [hxs])
         exact ⟨z, by simp [hz], hzn⟩
       | some ys => simp [hxs] at h1
+
+/-- the class an enum constant is looked up in is read off the descriptor text by the specification (`classOfDesc`:
+between `L` and the final `;`) and asked of duke's descriptor parser by `remap.rs` (`objectClassOf`): the same, namely
+the JVMS production `ObjectType: L ClassName ;` -/
+theorem enum_class_of_descriptor (t k : JStr) :
+    (classOfDesc t = some k ↔ DescriptorGrammar.ClassName k ∧ t = Descriptor.cL :: k ++ [Descriptor.SEMI]) ∧
+    classOfDesc t = objectClassOf t :=
+  ⟨classOfDesc_iff t k, classOfDesc_eq t⟩
 
 /-! ### Concrete values for the examples and witnesses: a remapper renaming class `A` to `B` -/
 
@@ -115,6 +86,9 @@ def emptyClass (name : JStr) : ClassFile :=
     modulePackages := none, moduleMainClass := none, nestHost := none, nestMembers := none,
     permittedSubclasses := none, recordComponents := [], attributes := [] }
 
+def emptyRecordComponent (name desc : JStr) : RecordComponent :=
+  { name := name, desc := desc, signature := none, rva := [], ria := [], rvta := [], rita := [], attributes := [] }
+
 def emptyMethod (name desc : JStr) : Method :=
   { shape := nil, name := name, desc := desc, code := none, exceptions := none, signature := none, rva := [], ria := [],
     rvta := [], rita := [], annotationDefault := none, parameters := nil, attributes := [] }
@@ -135,18 +109,18 @@ def exampleClass : ClassFile :=
       code := some (codeOf [.cls nil A, .field nil ⟨A, nameF, LA⟩, .method nil ⟨[91, 76, 65, 59], nameG, unitLA⟩,
                             .ldc (.handle (.field nil ⟨A, nameF, LA⟩)), .plain nil]) }] }
 
-/-- non-vacuity: the hypotheses of `remap_refs_partial` hold for a class full of references that are all renamed -/
-example : Kept exampleClass = true ∧ Agree rAB exampleClass = true ∧
-    (remapClass rAB exampleClass).map refsClass ≠ some (refsClass exampleClass) := by decide
+/-- non-vacuity: a class full of references that are all renamed -/
+example : (remapClass rAB exampleClass).map refsClass = omapM (applyRef rAB exampleClass.name) (refsClass exampleClass) ∧
+    (remapClass rAB exampleClass).map refsClass ≠ some (refsClass exampleClass) ∧
+    (remapClass rAB exampleClass).isSome = true := by decide
 
 /-- a lambda `() -> A`: `invokedynamic f()LA;` -/
 def indyClass : ClassFile :=
   { emptyClass [88] with methods := [{ emptyMethod nameG unitLA with code := some (codeOf [.indy nameF unitLA someHandle []]) }] }
 
-/-- **regression (invokedynamic descriptor; a witness of the gap before the fix 45d38a4).** The class is inside the
-proved domain and the descriptor `()LA;` of the `invokedynamic` is renamed to `()LB;`. -/
+/-- **regression (invokedynamic descriptor; a witness of the gap before the fix 45d38a4).** The descriptor `()LA;` of
+the `invokedynamic` is renamed to `()LB;`. -/
 theorem remap_refs_indy_fixed :
-    Kept indyClass = true ∧ Agree rAB indyClass = true ∧
     (remapClass rAB indyClass).map refsClass = omapM (applyRef rAB indyClass.name) (refsClass indyClass) ∧
     (remapClass rAB indyClass).map refsClass =
       some [.cls [88], .methodDecl nameG unitLB, .dynDesc unitLB, .methodRef ⟨B, nameF, unitLB⟩] := by decide
@@ -158,59 +132,104 @@ def condyClass : ClassFile :=
 
 /-- **regression (dynamic constant descriptor).** -/
 theorem remap_refs_condy_fixed :
-    Kept condyClass = true ∧ Agree rAB condyClass = true ∧
     (remapClass rAB condyClass).map refsClass = omapM (applyRef rAB condyClass.name) (refsClass condyClass) ∧
     (remapClass rAB condyClass).map refsClass =
       some [.cls [88], .methodDecl nameG unitLB, .dynDesc LB, .methodRef ⟨B, nameF, unitLB⟩] := by decide
 
-/-- `@Ann(A.f)` where the mappings rename the enum constant `A.f` to `g` -/
-def enumClass : ClassFile := { emptyClass [88] with rva := [.mk [76, 81, 59] [.mk nameG (.enum LA nameF)]] }
+/-- `@Q(g = A.f, g = A[].f, g = A."f/")` where the mappings rename the enum constant `A.f` to `g` -/
+def enumClass : ClassFile :=
+  { emptyClass [88] with
+    rva := [.mk [76, 81, 59] [.mk nameG (.enum LA nameF), .mk nameG (.enum (91 :: LA) nameF),
+                              .mk nameG (.enum LA [102, 47])]] }
 
-/-- **witness (enum constant in an annotation).** The enum type is renamed, the constant is not. -/
-theorem remap_refs_enum_witness :
-    Kept enumClass = true ∧
-    (remapClass rAB enumClass).map refsClass ≠ omapM (applyRef rAB enumClass.name) (refsClass enumClass) := by decide
+/-- **regression (enum constant in an annotation; `remap_refs_enum_witness` before the fix).** The constant `f` of the
+enum `A` is renamed to `g` along with the field `A.f`; with an array descriptor (no class to look the constant up in) or
+a name that cannot be a field name it is kept. -/
+theorem remap_refs_enum_fixed :
+    (remapClass rAB enumClass).map refsClass = omapM (applyRef rAB enumClass.name) (refsClass enumClass) ∧
+    (remapClass rAB enumClass).map refsClass =
+      some [.cls [88], .desc [76, 81, 59], .enumConst LB nameG, .enumConst (91 :: LA) nameF, .enumConst LB [102, 47]] := by
+  decide
 
-/-- a record `A(A f)` -/
-def recordClass : ClassFile := { emptyClass A with recordComponents := [⟨nameF, LA, nil⟩] }
+/-- a record `A(A f, A "f/")` whose first component is annotated `@A(A.f)` -/
+def recordClass : ClassFile :=
+  { emptyClass A with
+    recordComponents := [{ emptyRecordComponent nameF LA with ria := [.mk LA [.mk nameG (.enum LA nameF)]] },
+                         emptyRecordComponent [102, 47] LA] }
 
-/-- **witness (record components).** Outside `Kept`: the component `f:LA;` has no counterpart in the result at all. -/
-theorem remap_refs_record_witness :
-    Agree rAB recordClass = true ∧
-    (remapClass rAB recordClass).map refsClass ≠ omapM (applyRef rAB recordClass.name) (refsClass recordClass) := by decide
+/-- **regression (record components; `remap_refs_record_witness` before the fix).** The component `f:LA;` is renamed like
+the field `A.f:LA;` (to `g:LB;`), its annotation is remapped; a component whose name cannot be a field name keeps it and
+has its descriptor remapped. -/
+theorem remap_refs_record_fixed :
+    (remapClass rAB recordClass).map refsClass = omapM (applyRef rAB recordClass.name) (refsClass recordClass) ∧
+    (remapClass rAB recordClass).map refsClass =
+      some [.cls B, .recordDecl nameG LB, .desc LB, .enumConst LB nameG, .recordDecl [102, 47] LB] := by decide
+
+/-- a module descriptor: `uses A; provides A with X, A;`, main class `A` -/
+def moduleClass : ClassFile :=
+  { emptyClass [88] with
+    module := some { shape := nil, uses := [A], provides := [⟨A, [[88], A]⟩] }
+    modulePackages := some [A]
+    moduleMainClass := some A }
+
+/-- **regression (module data; part of `remap_shape_witness` before the fix).** The service classes and the main class
+are renamed, the package list is not a list of classes and is copied. -/
+theorem remap_refs_module_fixed :
+    (remapClass rAB moduleClass).map refsClass = omapM (applyRef rAB moduleClass.name) (refsClass moduleClass) ∧
+    (remapClass rAB moduleClass).map refsClass =
+      some [.cls [88], .clsAny B, .clsAny B, .clsAny [88], .clsAny B, .clsAny B] ∧
+    (remapClass rAB moduleClass).map (·.modulePackages) = some (some [A]) := by decide
 
 /-! ## Shape -/
 
-/-- **`remap_shape`, exactly.** Everything that is not a reference position is what it was in the class without module
-data, record components and unknown attributes. Full strength for the code as it is. -/
+/-- **`remap_shape`, full strength.** Everything that is not a reference position — flags, version, the instruction
+stream with operands and labels, constants, line numbers, type-annotation targets, signatures, element names, module and
+package names, unknown attributes at every level, the number and order of all lists — is unchanged. No hypothesis. -/
 theorem remap_shape (r : Remapper) (c c' : ClassFile) (h : remapClass r c = some c') :
-    eraseClass c' = eraseClass (strip c) :=
+    eraseClass c' = eraseClass c :=
   class_shape r c c' h
-
-/-- **`remap_shape`, proved domain**: for a class with nothing to drop, all non-name content is unchanged. -/
-theorem remap_shape_partial (r : Remapper) (c c' : ClassFile) (hk : Kept c = true) (h : remapClass r c = some c') :
-    eraseClass c' = eraseClass c := by
-  rw [remap_shape r c c' h, strip_of_kept hk]
 
 example : ∃ c', remapClass rAB exampleClass = some c' ∧ eraseClass c' = eraseClass exampleClass := by
   cases h : remapClass rAB exampleClass with
   | none => exact absurd h (by decide)
-  | some c' => exact ⟨c', rfl, remap_shape_partial rAB _ _ (by decide) h⟩
+  | some c' => exact ⟨c', rfl, remap_shape rAB _ _ h⟩
 
-/-- **witness (dropped content).** An unknown attribute, the module data and the record components are gone after
-the remap, whatever the remapper. -/
-theorem remap_shape_witness :
-    let c := { emptyClass A with attributes := [nil], module := some nil, recordComponents := [⟨nameF, LA, nil⟩] }
-    ∀ c', remapClass rAB c = some c' →
-      c'.attributes.length ≠ c.attributes.length ∧ c'.module.isSome ≠ c.module.isSome ∧
-      c'.recordComponents.length ≠ c.recordComponents.length := by
-  intro c c' h
-  have h2 : (remapClass rAB c).map (fun d => (d.attributes.length, d.module.isSome, d.recordComponents.length)) =
-      some (0, false, 0) := by decide
-  rw [h] at h2
-  simp only [Option.map_some, Option.some.injEq, Prod.mk.injEq] at h2
-  obtain ⟨h3, h4, h5⟩ := h2
-  simp [h3, h4, h5, c, nil]
+/-- a class with an unknown attribute at every level, module data and a record component -/
+def fullClass : ClassFile :=
+  { emptyClass A with
+    attributes := [nil]
+    module := some { shape := nil, uses := [A], provides := [] }
+    modulePackages := some [A]
+    moduleMainClass := some A
+    fields := [{ shape := nil, name := nameF, desc := LA, signature := none, rva := [], ria := [], rvta := [], rita := [],
+                 attributes := [nil] }]
+    methods := [{ emptyMethod nameG unitLA with code := some { codeOf [] with attributes := [nil] }, attributes := [nil] }]
+    recordComponents := [{ emptyRecordComponent nameF LA with attributes := [nil] }] }
+
+/-- **regression (dropped content; `remap_shape_witness` before the fixes).** Unknown attributes of the class, a field,
+a method, its code and a record component, the module data and the record components are all still there after the
+remap, and the shape is the shape of the input. -/
+theorem remap_shape_fixed :
+    ∀ c', remapClass rAB fullClass = some c' →
+      eraseClass c' = eraseClass fullClass ∧
+      c'.attributes.length = 1 ∧ c'.fields.map (·.attributes.length) = [1] ∧
+      c'.methods.map (·.attributes.length) = [1] ∧
+      c'.methods.map (fun m => m.code.map (·.attributes.length)) = [some 1] ∧
+      c'.recordComponents.map (fun rc => (rc.name, rc.desc, rc.attributes.length)) = [(nameG, LB, 1)] ∧
+      c'.module.map (·.uses) = some [B] ∧ c'.modulePackages = some [A] ∧ c'.moduleMainClass = some B := by
+  intro c' h
+  refine ⟨remap_shape rAB _ _ h, ?_⟩
+  have h2 : (remapClass rAB fullClass).map (fun d => (d.attributes.length, d.fields.map (·.attributes.length),
+      d.methods.map (·.attributes.length), d.methods.map (fun m => m.code.map (·.attributes.length)))) =
+      some (1, [1], [1], [some 1]) := by decide
+  have h3 : (remapClass rAB fullClass).map (fun d =>
+      (d.recordComponents.map (fun rc => (rc.name, rc.desc, rc.attributes.length)), d.module.map (·.uses))) =
+      some ([(nameG, LB, 1)], some [B]) := by decide
+  have h4 : (remapClass rAB fullClass).map (fun d => (d.modulePackages, d.moduleMainClass)) =
+      some (some [A], some B) := by decide
+  rw [h] at h2 h3 h4
+  simp only [Option.map_some, Option.some.injEq, Prod.mk.injEq] at h2 h3 h4
+  exact ⟨h2.1, h2.2.1, h2.2.2.1, h2.2.2.2, h3.1, h3.2, h4.1, h4.2⟩
 
 /-- a field with generic signature `LA;` and descriptor `LA;` -/
 def sigClass : ClassFile :=
@@ -224,8 +243,8 @@ theorem signature_unmapped_witness :
     (remapClass rAB sigClass).map (fun c => c.fields.map fun f => (f.desc, f.signature)) = some [(LB, some LA)] := by
   decide
 
-/-- **witness (annotation element names, inner names).** `@A(f = …)` names the method `f` of the annotation interface
-`A`, `InnerClass.inner_name` the simple name of the class: both are copied whatever the remapper says. -/
+/-- **witness (annotation element names).** `@A(f = …)` names the method `f` of the annotation interface `A`: it is
+copied whatever the remapper says. -/
 theorem element_name_unmapped_witness (r : Remapper) (t n : JStr) (v : ElementValue) (a : Annotation)
     (h : remapAnnotation r (.mk t [.mk n v]) = some a) : ∃ t' v', a = .mk t' [.mk n v'] := by
   simp only [remapAnnotation, remapPairs, remapPair] at h
@@ -236,14 +255,55 @@ theorem element_name_unmapped_witness (r : Remapper) (t n : JStr) (v : ElementVa
   simp at h
   exact ⟨_, _, h.symm⟩
 
-theorem inner_name_unmapped_witness (r : Remapper) (i j : InnerClass) (h : remapInnerClass r i = some j) :
-    j.innerName = i.innerName := by
-  simp only [remapInnerClass] at h
-  cases h1 : mapClassAny r i.inner <;> simp only [h1] at h
-  · simp at h
-  cases h2 : ooptM (mapClassAny r) i.outer <;> simp only [h2] at h
-  · simp at h
-  simp at h; subst h; rfl
+/-! ## Inner names -/
+
+/-- **`remap_inner_name`.** `InnerClass.inner_name` is no question a remapper answers; it follows from the answer for
+the class name. What `remap.rs` makes of it is `expectedInnerName`: an inner name that was the simple name spelled out
+by the old class name (after the last `$` of the last `/`-separated part, digits of a local class skipped) is the simple
+name spelled out by the new class name, when that spells one; every other inner name is unchanged. -/
+theorem remap_inner_name (r : Remapper) (i j : InnerClass) (h : remapInnerClass r i = some j) :
+    j.innerName = expectedInnerName i.inner j.inner i.innerName :=
+  innerClass_innerName r i j h
+
+/-- … in particular an entry whose class is not renamed keeps its inner name, whatever it is -/
+theorem remap_inner_name_unrenamed (r : Remapper) (i j : InnerClass) (h : remapInnerClass r i = some j)
+    (hn : j.inner = i.inner) : j.innerName = i.innerName := by
+  rw [remap_inner_name r i j h, hn]
+  simp only [expectedInnerName]
+  cases i.innerName with
+  | none => rfl
+  | some s =>
+    simp only [Option.map_some, Option.some.injEq]
+    by_cases hs : spelledSimpleName i.inner = some s
+    · simp [hs]
+    · simp [hs]
+
+/-- the meaning of "after the last": `rsplit_once` in `remap.rs`, `reverse`/`takeWhile` in the specification -/
+theorem inner_name_after_last (c : Nat) (s : JStr) : afterLast c s = lastPiece c s ∧ simpleName s = spelledSimpleName s :=
+  ⟨afterLast_eq_lastPiece c s, simpleName_eq s⟩
+
+def dollar (a b : JStr) : JStr := a ++ [36] ++ b
+
+/-- every class becomes `B` (a name without `$`) -/
+def rMergeB : Remapper := { rAB with mapClass := fun _ => some B }
+
+/-- `A$f → B$g`, `A$1f → B$2g`, everything else as `rAB` -/
+def rInner : Remapper :=
+  { rAB with mapClass := fun n => some (if n = dollar A nameF then dollar B nameG
+                                        else if n = dollar A (49 :: nameF) then dollar B (50 :: nameG) else n) }
+
+/-- **regression (inner names; `inner_name_unmapped_witness` before the fix).** The member class `A$f` and the local
+class `A$1f`, both with inner name `f`, are renamed to `B$g` and `B$2g`: the inner name becomes `g`. An inner name that
+is not what the class name spells out (`g` for `A$f`) and the inner name of a class whose new name has no `$` are kept. -/
+theorem remap_inner_name_fixed :
+    (omapM (remapInnerClass rInner)
+        [⟨dollar A nameF, some A, some nameF, nil⟩, ⟨dollar A (49 :: nameF), none, some nameF, nil⟩,
+         ⟨dollar A nameF, some A, some nameG, nil⟩, ⟨dollar A nameF, none, none, nil⟩]).map
+      (·.map fun j => (j.inner, j.innerName)) =
+      some [(dollar B nameG, some nameG), (dollar B (50 :: nameG), some nameG), (dollar B nameG, some nameG),
+            (dollar B nameG, none)] ∧
+    (remapInnerClass rMergeB ⟨dollar A nameF, none, some nameF, nil⟩).map (fun j => (j.inner, j.innerName)) =
+      some (B, some nameF) := by decide
 
 /-! ## Entry names and entries -/
 
@@ -317,33 +377,39 @@ theorem remap_jar_collision_witness :
 open Gen.RemapFields
 
 /-- `custom` positions: computed by the impl from a remapper call on several fields at once; the model shows they are
-the remapper's answers (`remap_refs_code`: `fieldDecl`, `methodDecl`, `methodRef` / `clsAny` of `EnclosingMethod`) -/
+the remapper's answers (`remap_refs`: `fieldDecl`, `methodDecl`, `recordDecl`, `enumConst`, `methodRef` / `clsAny` of
+`EnclosingMethod`) resp. follow from them (`remap_inner_name`) -/
 def customHandled : List Nat :=
   [id_Field_name, id_Field_descriptor, id_Method_name, id_Method_descriptor, id_EnclosingMethod_class,
-   id_EnclosingMethod_method]
+   id_EnclosingMethod_method, id_RecordComponent_name, id_RecordComponent_descriptor, id_ElementValue_Enum_const_name,
+   id_InnerClass_inner_name]
 
-/-- positions whose type can carry a reference and which `remap.rs` does not remap: each one is a finding -/
+/-- unknown attributes: raw bytes that nobody can interpret (they may or may not name something); copied byte for byte
+at every level, which is all a remapper can do with them (`remap_shape`) -/
+def opaqueKept : List Nat :=
+  [id_ClassFile_attributes, id_Field_attributes, id_Method_attributes, id_Code_attributes, id_RecordComponent_attributes]
+
+/-- positions whose type can carry a reference and which `remap.rs` copies: each one is an open finding -/
 def exceptions : List Nat :=
-  [ -- copied although they carry references
-    id_InvokeDynamic_name, id_ConstantDynamic_name,
-    id_ClassFile_signature, id_Field_signature, id_Method_signature, id_Lv_signature,
-    id_ElementValue_Enum_const_name, id_ElementValuePair_name, id_InnerClass_inner_name,
-    -- dropped
-    id_ClassFile_record_components, id_ClassFile_module, id_ClassFile_module_packages, id_ClassFile_module_main_class,
-    id_ClassFile_attributes, id_Field_attributes, id_Method_attributes, id_Code_attributes ]
+  [ id_InvokeDynamic_name, id_ConstantDynamic_name,
+    id_ClassFile_signature, id_Field_signature, id_Method_signature, id_Lv_signature, id_RecordComponent_signature,
+    id_ElementValuePair_name ]
 
-/-- the full statement: every position that can carry a reference is remapped -/
+/-- the full statement: every position that can carry a reference is remapped (or is an uninterpretable attribute) -/
 def FullCoverage : Prop :=
-  ∀ row ∈ table, row.carries = true → row.treat = .remapped ∨ (row.treat = .custom ∧ row.id ∈ customHandled)
+  ∀ row ∈ table, row.carries = true →
+    row.treat = .remapped ∨ (row.treat = .custom ∧ row.id ∈ customHandled) ∨ (row.treat = .kept ∧ row.id ∈ opaqueKept)
 
 /-- **`field_coverage`, as far as it holds**: every field of every struct and every payload of every enum variant
-with a `Mappable` impl whose type can carry a reference is remapped — except the listed positions. Decided on the table
-translated from the current `remap.rs` and duke tree definitions. -/
-example : exceptions.length = 17 := by decide
+with a `Mappable` impl whose type can carry a reference is remapped, or is an unknown attribute copied verbatim — except
+the listed positions. Nothing is dropped any more. Decided on the table translated from the current `remap.rs` and duke
+tree definitions. -/
+example : exceptions.length = 8 ∧ opaqueKept.length = 5 := by decide
 
 theorem field_coverage_partial :
     ∀ row ∈ table, row.carries = true →
-      row.treat = .remapped ∨ (row.treat = .custom ∧ row.id ∈ customHandled) ∨ row.id ∈ exceptions := by
+      row.treat = .remapped ∨ (row.treat = .custom ∧ row.id ∈ customHandled) ∨
+      (row.treat = .kept ∧ row.id ∈ opaqueKept) ∨ row.id ∈ exceptions := by
   decide +kernel
 
 /-- **witness**: the full statement is false for the current code -/
@@ -351,13 +417,17 @@ theorem field_coverage_witness : ¬ FullCoverage := by
   intro h
   exact absurd (h ⟨id_Field_signature, .kept, true⟩ (by decide) rfl) (by decide)
 
-/-- the exception list is tight: every entry is a reference-carrying position that is kept or dropped -/
+/-- the exception list is tight: every entry is a reference-carrying position that is copied -/
 theorem field_coverage_exceptions_tight :
-    ∀ i ∈ exceptions, ∃ row ∈ table, row.id = i ∧ row.carries = true ∧ (row.treat = .kept ∨ row.treat = .dropped ∨
-      (row.treat = .custom ∧ i = id_InnerClass_inner_name)) := by
+    ∀ i ∈ exceptions, ∃ row ∈ table, row.id = i ∧ row.carries = true ∧ row.treat = .kept := by
   decide +kernel
 
-/-- no position without references is touched: what is remapped or dropped carries references -/
+/-- **regression (dropped positions)**: no position of the tree is dropped by `remap.rs` any more (record components,
+module data and unknown attributes were, before the fixes) -/
+theorem nothing_dropped : ∀ row ∈ table, row.treat ≠ .dropped := by
+  decide +kernel
+
+/-- no position without references is touched: what is remapped carries references -/
 theorem nothing_else_touched : ∀ row ∈ table, row.carries = false → row.treat = .kept := by
   decide +kernel
 
